@@ -14,7 +14,7 @@
 
 enum { OK_CTR, OK_PAR };
 enum { PH_ZERO, PH_LIVE, PH_CLEANED, PH_FAILED };
-enum { L_INIT, L_KEY, L_TKEY, L_TWEAK, L_CTR, L_USE, L_USEBIG, L_SWAP, L_CLEANUP, L_KEYSHORT, L_USE0 };
+enum { L_INIT, L_KEY, L_TKEY, L_TWEAK, L_CTR, L_USE, L_USEBIG, L_SWAP, L_CLEANUP, L_KEYSHORT, L_USE0, L_INITFAIL };
 
 static int g_mode;               /* 15 or 17 */
 static int g_okind; static Cipher g_c; static int g_be, g_bs;
@@ -43,6 +43,7 @@ static void l_build(void)
     l_nops = 0;
     for (i = 0; i < 2; ++i) {
         l_ops[l_nops].type = L_INIT; l_ops[l_nops++].obj = i;
+        if (g_mode == 15 && i == 0) { l_ops[l_nops].type = L_INITFAIL; l_ops[l_nops++].obj = i; }   /* init whose first allocation request is refused: a dead object */
         l_ops[l_nops].type = L_KEY; l_ops[l_nops++].obj = i;
         if (g_c != CK_MANTIS && (g_mode == 17 || i == 0)) { l_ops[l_nops].type = L_KEYSHORT; l_ops[l_nops++].obj = i; }   /* re-key with the shortest key: fewer rounds than before */
         if (g_okind == OK_CTR) {
@@ -69,7 +70,7 @@ static int l_enabled(int op)
 {
     const LOp *o = &l_ops[op];
     const LObj *b = &LW.o[o->obj];
-    if (o->type == L_INIT) return b->phase != PH_LIVE;      /* init over a live object is the caller's leak: excluded */
+    if (o->type == L_INIT || o->type == L_INITFAIL) return b->phase != PH_LIVE;      /* init over a live object is the caller's leak: excluded */
     if (g_mode == 17) {
         if (b->phase != PH_LIVE) return 0;
         if (o->type == L_TWEAK) return b->keyed == 2 || (g_c == CK_MANTIS && b->keyed);
@@ -82,7 +83,7 @@ static int l_enabled(int op)
 
 static void l_opname(int op, char *buf, size_t n)
 {
-    static const char *nm[] = {"init", "set_key", "set_tweaked_key", "set_tweak", "set_counter", "use", "use(batch+3)", "swap_modes", "cleanup", "set_key(shortest)", "use(0 bytes)"};
+    static const char *nm[] = {"init", "set_key", "set_tweaked_key", "set_tweak", "set_counter", "use", "use(batch+3)", "swap_modes", "cleanup", "set_key(shortest)", "use(0 bytes)", "init[allocation refused]"};
     snprintf(buf, n, "%s(obj%d)", nm[l_ops[op].type], l_ops[op].obj);
 }
 
@@ -155,6 +156,20 @@ static void l_apply(int op, int check)
             }
         } else if (r && !LW.have_first[o->obj]) { LW.have_first[o->obj] = 1; LW.first_init_digest[o->obj] = content_digest(b); }
         break;
+    case L_INITFAIL:
+        g_fail_at = g_alloc_calls + 1;
+        if (g_okind == OK_CTR) r = ctr_init(g_c, g_be, &b->h.c); else r = par_init(g_c, g_be, &b->h.p);
+        g_fail_at = 0;
+        if (check) {
+            if (r) l_report("init-succeeded-after-refused-allocation", op, "init returned %d although its first allocation request was refused", r);
+            if (arena_live() != live0) l_report("leak", op, "a failed init left %d more live block(s)", arena_live() - live0);
+        }
+        if (r) {   /* keep the model in step with what the library did */
+            b->nowned = 0;
+            for (i = recs0; i < arena_count() && b->nowned < 4; ++i) if (arena_rec(i)->live) b->owned[b->nowned++] = i;
+            b->phase = PH_LIVE; b->keyed = 0; b->ncalls = 0;
+        } else { b->phase = PH_FAILED; b->keyed = 0; b->ncalls = 0; b->nowned = 0; }
+        break;
     case L_KEY:
         if (g_okind == OK_CTR) r = ctr_set_key(g_c, &b->h.c, KEYS[0], g_c == CK_MANTIS ? 16 : (unsigned)g_bs * 3, 7);
         else r = par_set_key(g_c, &b->h.p, KEYS[0], g_c == CK_MANTIS ? 16 : (unsigned)g_bs * 3, 6, MANTIS_ENCRYPT);
@@ -195,7 +210,7 @@ static void l_apply(int op, int check)
         r = -2;
         break;
     }
-    if (o->type != L_INIT && o->type != L_CLEANUP) ++b->ncalls;
+    if (o->type != L_INIT && o->type != L_INITFAIL && o->type != L_CLEANUP) ++b->ncalls;
 
     if (check) {
         if (g_lerr.foreign_free || g_lerr.double_free || g_lerr.interior_free)
@@ -222,11 +237,11 @@ static void l_apply(int op, int check)
                 }
             } else if (g_mode == 15) {
                 if (g_alloc_calls != calls0 || count_frees() != frees0)
-                    l_report("cleanup-touched-allocator", op, "cleanup of a %s object made allocator calls", b->phase == PH_ZERO ? "zeroed" : "cleaned-up");
+                    l_report("cleanup-touched-allocator", op, "cleanup of a %s object made allocator calls", b->phase == PH_ZERO ? "zeroed" : (b->phase == PH_FAILED ? "failed-init" : "cleaned-up"));
             }
-        } else if (o->type != L_INIT && g_mode == 15) {
+        } else if (o->type != L_INIT && o->type != L_INITFAIL && g_mode == 15) {
             if (g_alloc_calls != calls0 || count_frees() != frees0) l_report("unexpected-allocation", op, "a non-init call used the allocator");
-            if (b->phase != PH_LIVE && r != 0 && r != -2) l_report("dead-object-accepted", op, "call on a %s object returned %d", b->phase == PH_ZERO ? "zeroed" : "cleaned-up", r);
+            if (b->phase != PH_LIVE && r != 0 && r != -2) l_report("dead-object-accepted", op, "call on a %s object returned %d", b->phase == PH_ZERO ? "zeroed" : (b->phase == PH_FAILED ? "failed-init" : "cleaned-up"), r);
             if (b->phase == PH_LIVE && r == 0 && (o->type == L_KEY || o->type == L_KEYSHORT || o->type == L_TKEY || o->type == L_CTR || ((o->type == L_USE || o->type == L_USE0) && b->keyed)))
                 l_report("live-object-rejected", op, "valid call on a live object returned 0");
         }
